@@ -17,6 +17,7 @@ func init() {
 		Canary: []CanaryExpect{
 			{Rule: "ERRUSED", Bad: "canaryBadDroppedAtoi", Good: "canaryGoodCheckedAtoi"},
 			{Rule: "GUARD", Bad: "canaryBadZoomGuard", Good: "canaryGoodZoomGuard"},
+			{Rule: "PARSE-BASE", Bad: "canaryBadBase0", Good: "canaryGoodCheckedAtoi"},
 		}})
 	register(&propSpec{ID: "C16", Level: "other", Run: runC16,
 		Explain: otherNote + "C16: decided = no exported function writes memory reachable from its arguments; no result depends on the position of an element in a map-ordered slice; bodies of map-range loops are commutative; documented de-duplication happens on every success path; no other nondeterminism source is reachable. Invariance of the result set under permutation/duplication of the input list in general is NOT decided.",
